@@ -1025,7 +1025,7 @@ class AnyBetween(__Class):
             else:
                 message = f"Argument \"{c}\" is neither a string nor a token."
                 raise _ex.InvalidArgumentTypeException(message)
-        start, end = str(start), str(end)
+        start, end = (str(c).replace("\\", "", 1) if len(str(c)) > 1 else str(c) for c in (start, end))
         if ord(start) >= ord(end):
             raise _ex.InvalidRangeException(start, end)
         start = f"\\{start}" if start in __class__._to_escape else start
@@ -1072,7 +1072,7 @@ class AnyButBetween(__Class):
             else:
                 message = f"Argument \"{c}\" is neither a string nor a token."
                 raise _ex.InvalidArgumentTypeException(message)
-        start, end = str(start), str(end)
+        start, end = (str(c).replace("\\", "", 1) if len(str(c)) > 1 else str(c) for c in (start, end))
         if ord(start) >= ord(end):
             raise _ex.InvalidRangeException(start, end)
         start = f"\\{start}" if start in __class__._to_escape else start
